@@ -2350,7 +2350,14 @@ class HedgeRisks(Algo):
             i = d.index.get_loc(target.now)
             data.append((i, d))
 
-        hedge_risk = np.array([[_get_unit_risk(s, d, i) for (i, d) in data] for s in securities])
+        # the risk of one unit of notional is unit risk x multiplier (as in
+        # UpdateRisk); an instrument that does not exist yet gets the multiplier
+        # it will be created with
+        def _multiplier(s):
+            c = target.children.get(s, target._lazy_children.get(s))
+            return getattr(c, "multiplier", 1.0)
+
+        hedge_risk = np.array([[_get_unit_risk(s, d, i) * _multiplier(s) for (i, d) in data] for s in securities])
 
         # Get hedge ratios
         if self.pseudo:
